@@ -1,49 +1,161 @@
 import PsyVerif.Model.Invoke
 import PsyVerif.Lemmas.InvokeArgs
+import PsyVerif.Lemmas.InvokeFile
 /-! # C24 — Generated algorithm and PSy layers agree on invoke arguments
 
-Model: `PsyVerif/Model/Invoke.lean` (FIXED code: fixes/C24-stencil-alg-text.patch — the stencil extent /
-direction entries of the algorithm-layer list are the argument texts, not the PSy-layer names).
-Quantification: every invoke — any number of kernel calls, any number of arguments of every role, any
-repetition of texts and roots, any set of reserved names.
+Models: `Model/Invoke.lean` (argument lists and symbol table of ONE invoke), `Model/InvokeFile.lean` (all invokes of
+a file: labels, routine names, the two walks of `Alg.gen`; PSy-layer names made by string concatenation; the
+PSyIR-based algorithm path).  Lemmas: `Lemmas/InvokeArgs.lean`, `Lemmas/InvokeFile.lean`.
 
-Result: the positional agreement of the two lists, the data flow into every kernel argument, literal
-pass-through and the exact content of the lists hold for ALL invokes.  Pairwise distinct dummy names do
-NOT hold for all invokes on the pinned code (the same expression used in two different roles, e.g. an
-integer passed both as a kernel scalar and as a stencil extent, is declared twice): `C24_statement` is
-refuted on a witness and `C24_dummies_nodup_partial` is proved under `groupsDisjoint`. -/
+The models follow the FIXED code:
+* fixes/C24-stencil-alg-text.patch (committed): stencil extents / directions are passed by their text;
+* fixes/C24-two-roles-dedup.patch: an expression used in several roles is passed and declared once;
+* fixes/C24-invoke-label-clash.patch: labels are compared as routine names, `invoke_<digit>…` labels are refused.
+
+Quantification: every algorithm file — any number of invokes, of kernel calls, of arguments of every role, any
+repetition of texts / roots / spellings, any labels, any reserved names.
+
+Proved for all inputs (default path, `alg_gen.Alg`):
+* `C24_same_list`, `C24_same_length`, `C24_binding_coherent`, `C24_actuals_exact`, `C24_actuals_nodup`,
+  `C24_dummies_nodup`, `C24_dataflow` (with uniqueness of the position), `C24_literal_passthrough`,
+  `C24_accepted_wellformed`, `C24_no_alias_in_kernel`, `C24_holds` (= `C24_statement`),
+  `C24_crash_only_if_shared` (the symbol table aborts only when an expression is used in two roles);
+* file level: `C24_invoke_matching_any`, `C24_invoke_matching` (k-th rewritten call ↔ routine of the k-th invoke,
+  routine names pairwise distinct, a call names exactly one routine).
+Refuted, with a partial theorem:
+* pinned label check: `C24_routine_names_pinned_counterexample` / `C24_invoke_matching_pinned_partial`;
+* names made by string concatenation (`<arg>_proxy`, `map_/ndf_/undf_<space>`): `C24_internal_clash_counterexample`
+  / `C24_no_internal_clash_partial` (known finding C24-psy-internal-name-clash, no fix);
+* PSyIR-based algorithm path (`LFRIC_TESTING`): `C24_psyir_path_counterexample` / `C24_psyir_path_partial`,
+  `C24_psyir_name_counterexample` / `C24_psyir_name_iff` (known findings, path switched off in `generate`). -/
 namespace C24
 
 /-! ## helper lemmas -/
 
-theorem mem_regOrder {k : Kernel} {s : Slot} : s ∈ regOrder k ↔ s ∈ k := by
-  simp only [regOrder, List.mem_append, List.mem_filter, isRole, isStencil, decide_eq_true_eq]
+theorem mem_regs_pre {k : Kernel} {t : Text} {r : Root} {ro : Role} :
+    ((t, r), ro) ∈ (k.filter (isRole .data) ++ k.filter isStencil).filterMap regOf ↔
+      ∃ s ∈ k, s.act = .var t r ∧ s.role = ro ∧ ro ≠ .qr := by
+  simp only [List.mem_filterMap, List.mem_append, List.mem_filter, isRole, isStencil, decide_eq_true_eq]
   constructor
-  · rintro ((h | h) | h) <;> exact h.1
-  · intro h
-    cases hr : s.role <;> simp [h]
+  · rintro ⟨s, hs, hr⟩
+    unfold regOf varOf at hr
+    split at hr
+    · rename_i t' r' ha
+      simp only [Option.map_some, Option.some.injEq, Prod.mk.injEq] at hr
+      obtain ⟨⟨rfl, rfl⟩, rfl⟩ := hr
+      rcases hs with ⟨hs, hd⟩ | ⟨hs, hst⟩
+      · exact ⟨s, hs, ha, rfl, by rw [hd]; decide⟩
+      · refine ⟨s, hs, ha, rfl, ?_⟩
+        intro e; rw [e] at hst; simp at hst
+    · simp at hr
+  · rintro ⟨s, hs, ha, rfl, hq⟩
+    refine ⟨s, ?_, by simp [regOf, varOf, ha]⟩
+    cases hr : s.role
+    · exact Or.inl ⟨hs, rfl⟩
+    · exact Or.inr ⟨hs, by simp⟩
+    · exact Or.inr ⟨hs, by simp⟩
+    · exact absurd hr hq
 
-theorem mem_regList {inv : Invoke} {t : Text} {r : Root} :
-    (t, r) ∈ regList inv ↔ ∃ k ∈ inv, ∃ s ∈ k, s.act = .var t r := by
-  simp only [regList, List.mem_flatten, List.mem_map]
+theorem mem_regs_qr {k : Kernel} {t : Text} {r : Root} {ro : Role} :
+    ((t, r), ro) ∈ (k.filter (isRole .qr)).filterMap regOf ↔
+      ∃ s ∈ k, s.act = .var t r ∧ s.role = ro ∧ ro = .qr := by
+  simp only [List.mem_filterMap, List.mem_filter, isRole, decide_eq_true_eq]
   constructor
-  · rintro ⟨l, ⟨k, hk, rfl⟩, hl⟩
-    obtain ⟨s, hs, hv⟩ := List.mem_filterMap.mp hl
-    refine ⟨k, hk, s, mem_regOrder.mp hs, ?_⟩
-    unfold varOf at hv
-    split at hv
-    · cases hv; assumption
-    · cases hv
-  · rintro ⟨k, hk, s, hs, ha⟩
-    refine ⟨_, ⟨k, hk, rfl⟩, List.mem_filterMap.mpr ⟨s, mem_regOrder.mpr hs, ?_⟩⟩
-    simp [varOf, ha]
+  · rintro ⟨s, ⟨hs, hq⟩, hr⟩
+    unfold regOf varOf at hr
+    split at hr
+    · rename_i t' r' ha
+      simp only [Option.map_some, Option.some.injEq, Prod.mk.injEq] at hr
+      obtain ⟨⟨rfl, rfl⟩, rfl⟩ := hr
+      exact ⟨s, hs, ha, rfl, hq⟩
+    · simp at hr
+  · rintro ⟨s, hs, ha, rfl, hq⟩
+    exact ⟨s, ⟨hs, hq⟩, by simp [regOf, varOf, ha]⟩
 
-theorem build_inv (res : List Name) (inv : Invoke) : Inv (build res inv) :=
-  foldl_reg_inv _ _ ⟨by simp, by simp⟩
+/-- What one accepted kernel-creation step guarantees. -/
+theorem kernelStep_ok {st st' : SymTab} {k : Kernel} (h : kernelStep st k = .ok st') (hi : Inv st) :
+    Inv st' ∧ (∀ t n, lookupTag st.tags t = some n → lookupTag st'.tags t = some n) ∧
+      (∀ s ∈ k, ∀ t r, s.act = .var t r → Registered st' t) ∧ hasDup (dataTexts k) = false := by
+  unfold kernelStep at h
+  split at h
+  · cases h
+  · rename_i st1 h1
+    split at h
+    · cases h
+    · rename_i hd
+      split at h
+      · cases h
+      · rename_i st2 h2
+        cases h
+        have hi1 := regAll_inv _ _ _ h1 hi
+        refine ⟨regAll_inv _ _ _ h2 hi1, ?_, ?_, by simpa using hd⟩
+        · intro t n hl
+          exact regAll_keeps _ _ _ h2 (regAll_keeps _ _ _ h1 hl)
+        · intro s hs t r ha
+          by_cases hq : s.role = .qr
+          · exact regAll_registers _ _ _ h2 ((t, r), s.role) (mem_regs_qr.mpr ⟨s, hs, ha, rfl, hq⟩)
+          · have := regAll_registers _ _ _ h1 ((t, r), s.role) (mem_regs_pre.mpr ⟨s, hs, ha, rfl, hq⟩)
+            unfold Registered at this ⊢
+            obtain ⟨n, hn⟩ := Option.isSome_iff_exists.mp this
+            rw [regAll_keeps _ _ _ h2 hn]; rfl
 
-theorem build_registered {res : List Name} {inv : Invoke} {k : Kernel} {s : Slot} {t : Text} {r : Root}
-    (hk : k ∈ inv) (hs : s ∈ k) (ha : s.act = .var t r) : Registered (build res inv) t :=
-  foldl_reg_registers (regList inv) _ (t, r) (mem_regList.mpr ⟨k, hk, s, hs, ha⟩)
+theorem buildK_ok : ∀ (inv : Invoke) (st st' : SymTab), buildK st inv = .ok st' → Inv st →
+    Inv st' ∧ (∀ t n, lookupTag st.tags t = some n → lookupTag st'.tags t = some n) ∧
+      (∀ k ∈ inv, ∀ s ∈ k, ∀ t r, s.act = .var t r → Registered st' t) ∧
+      (∀ k ∈ inv, hasDup (dataTexts k) = false)
+  | [], st, st', h, hi => by
+    simp only [buildK, Step.ok.injEq] at h
+    subst h
+    exact ⟨hi, fun _ _ h => h, by simp, by simp⟩
+  | k :: ks, st, st', h, hi => by
+    simp only [buildK] at h
+    split at h
+    · rename_i st1 h1
+      obtain ⟨hi1, hk1, hr1, hd1⟩ := kernelStep_ok h1 hi
+      obtain ⟨hi2, hk2, hr2, hd2⟩ := buildK_ok ks st1 st' h hi1
+      refine ⟨hi2, fun t n hl => hk2 t n (hk1 t n hl), ?_, ?_⟩
+      · intro k' hk' s hs t r ha
+        rcases List.mem_cons.mp hk' with e | hk'
+        · subst e
+          have := hr1 s hs t r ha
+          unfold Registered at this ⊢
+          obtain ⟨n, hn⟩ := Option.isSome_iff_exists.mp this
+          rw [hk2 t n hn]; rfl
+        · exact hr2 k' hk' s hs t r ha
+      · intro k' hk'
+        rcases List.mem_cons.mp hk' with e | hk'
+        · subst e; exact hd1
+        · exact hd2 k' hk'
+    · cases h
+    · cases h
+
+theorem initTab_inv (res : List Name) : Inv (initTab res) := ⟨by simp [initTab], by simp [initTab]⟩
+
+/-- Everything that `generate … = ok out` unfolds to. -/
+theorem generate_ok {res : List Name} {inv : Invoke} {out : Output} (h : generate res inv = .ok out) :
+    buildK (initTab res) inv = .ok (tableOf res inv) ∧ inv.flatten.any badSlot = false ∧
+      out.actuals = actuals inv ∧ out.dummies = dummies (tableOf res inv) inv ∧
+      out.kcalls = inv.map (fun k => k.map (kernArg (tableOf res inv))) := by
+  unfold generate at h
+  split at h
+  · cases h
+  · cases h
+  · rename_i st hb
+    split at h
+    · cases h
+    · rename_i hbad
+      have ht : tableOf res inv = st := by simp [tableOf, hb]
+      cases h
+      exact ⟨by rw [ht, hb], by simpa using hbad, rfl, by rw [ht], by rw [ht]⟩
+
+theorem table_inv {res : List Name} {inv : Invoke} {out : Output} (h : generate res inv = .ok out) :
+    Inv (tableOf res inv) :=
+  (buildK_ok inv _ _ (generate_ok h).1 (initTab_inv res)).1
+
+theorem table_registered {res : List Name} {inv : Invoke} {out : Output} (h : generate res inv = .ok out)
+    {k : Kernel} {s : Slot} {t : Text} {r : Root} (hk : k ∈ inv) (hs : s ∈ k) (ha : s.act = .var t r) :
+    Registered (tableOf res inv) t :=
+  (buildK_ok inv _ _ (generate_ok h).1 (initTab_inv res)).2.2.1 k hk s hs t r ha
 
 theorem mem_textsOf {inv : Invoke} {ro : Role} {t : Text} :
     t ∈ textsOf ro inv ↔ ∃ k ∈ inv, ∃ s ∈ k, s.role = ro ∧ ∃ r, s.act = .var t r := by
@@ -64,25 +176,14 @@ theorem mem_textsOf {inv : Invoke} {ro : Role} {t : Text} :
   · rintro ⟨k, hk, s, hs, hr, r, ha⟩
     exact ⟨s, ⟨k, hk, hs⟩, by simp [textIf, hr, varOf, ha]⟩
 
-theorem textsOf_registered {res : List Name} {inv : Invoke} {ro : Role} {t : Text}
-    (h : t ∈ textsOf ro inv) : Registered (build res inv) t := by
-  obtain ⟨k, hk, s, hs, _, r, ha⟩ := mem_textsOf.mp h
-  exact build_registered hk hs ha
+/-- All written non-literal texts, in the order of the four groups. -/
+def allTexts (inv : Invoke) : List Text :=
+  uniq (textsOf .data inv) ++ uniq (textsOf .extent inv) ++ uniq (textsOf .direction inv)
+    ++ uniq (textsOf .qr inv)
 
-theorem nameOf_injOn (res : List Name) (inv : Invoke) (ro : Role) :
-    ∀ a ∈ textsOf ro inv, ∀ b ∈ textsOf ro inv,
-      nameOf (build res inv) a = nameOf (build res inv) b → a = b :=
-  fun _ ha _ hb e => nameOf_inj (build_inv res inv) (textsOf_registered ha) (textsOf_registered hb) e
-
-/-- The dummy list is the actual list, name by name. -/
-theorem dummies_eq (res : List Name) (inv : Invoke) :
-    dummies (build res inv) inv = (actuals inv).map (nameOf (build res inv)) := by
-  simp only [dummies, actuals, List.map_append]
-  rw [uniq_map _ _ (nameOf_injOn res inv .data), uniq_map _ _ (nameOf_injOn res inv .qr)]
-
-theorem mem_actuals {inv : Invoke} {t : Text} :
-    t ∈ actuals inv ↔ ∃ k ∈ inv, ∃ s ∈ k, ∃ r, s.act = .var t r := by
-  simp only [actuals, List.mem_append, mem_uniq, mem_textsOf]
+theorem mem_allTexts {inv : Invoke} {t : Text} :
+    t ∈ allTexts inv ↔ ∃ k ∈ inv, ∃ s ∈ k, ∃ r, s.act = .var t r := by
+  simp only [allTexts, List.mem_append, mem_uniq, mem_textsOf]
   constructor
   · rintro (((h | h) | h) | h) <;> obtain ⟨k, hk, s, hs, _, r, ha⟩ := h <;> exact ⟨k, hk, s, hs, r, ha⟩
   · rintro ⟨k, hk, s, hs, r, ha⟩
@@ -92,26 +193,41 @@ theorem mem_actuals {inv : Invoke} {t : Text} :
     · exact Or.inl (Or.inr ⟨k, hk, s, hs, hr, r, ha⟩)
     · exact Or.inr ⟨k, hk, s, hs, hr, r, ha⟩
 
-theorem actuals_registered {res : List Name} {inv : Invoke} {t : Text} (h : t ∈ actuals inv) :
-    Registered (build res inv) t := by
-  obtain ⟨k, hk, s, hs, r, ha⟩ := mem_actuals.mp h
-  exact build_registered hk hs ha
+/-- The staged construction of the algorithm list is first-occurrence de-duplication of all groups. -/
+theorem actuals_eq (inv : Invoke) : actuals inv = uniq (allTexts inv) := by
+  have uu : ∀ l : List Text, uniq (uniq l) = uniq l := fun l => uniqAcc_uniq [] l
+  have h1 : ∀ d e x : List Text, uniqAcc (uniq d) (uniq (uniq e ++ uniq x)) = uniqAcc (uniqAcc (uniq d) e) x := by
+    intro d e x
+    rw [uniqAcc_uniq, uniqAcc_append, uniqAcc_uniq, uniqAcc_uniq]
+  unfold actuals allTexts
+  rw [h1, uniqAcc_uniq]
+  simp only [uniq_append, uniqAcc_uniq, uu]
 
-theorem generate_some {res : List Name} {inv : Invoke} {out : Output} (h : generate res inv = some out) :
-    out.actuals = actuals inv ∧ out.dummies = dummies (build res inv) inv ∧
-      out.kcalls = inv.map (fun k => k.map (kernArg (build res inv))) := by
-  unfold generate at h
-  split at h
-  · cases h
-  · cases h; exact ⟨rfl, rfl, rfl⟩
+theorem mem_actuals {inv : Invoke} {t : Text} :
+    t ∈ actuals inv ↔ ∃ k ∈ inv, ∃ s ∈ k, ∃ r, s.act = .var t r := by
+  rw [actuals_eq, mem_uniq]; exact mem_allTexts
 
-theorem disjointB_iff {a b : List Text} : disjointB a b = true ↔ ∀ x ∈ a, x ∉ b := by
-  simp [disjointB]
+theorem allTexts_registered {res : List Name} {inv : Invoke} {out : Output} (h : generate res inv = .ok out)
+    {t : Text} (ht : t ∈ allTexts inv) : Registered (tableOf res inv) t := by
+  obtain ⟨k, hk, s, hs, r, ha⟩ := mem_allTexts.mp ht
+  exact table_registered h hk hs ha
 
-theorem nodup_append_uniq {a b : List Text} (ha : a.Nodup) (hb : b.Nodup) (h : ∀ x ∈ a, x ∉ b) :
-    (a ++ b).Nodup := by
-  rw [List.nodup_append]
-  exact ⟨ha, hb, fun x hx y hy e => h x hx (e ▸ hy)⟩
+theorem nameOf_injOn {res : List Name} {inv : Invoke} {out : Output} (h : generate res inv = .ok out)
+    (l : List Text) (hl : ∀ t ∈ l, t ∈ allTexts inv) :
+    ∀ a ∈ l, ∀ b ∈ l, nameOf (tableOf res inv) a = nameOf (tableOf res inv) b → a = b :=
+  fun a ha b hb e => nameOf_inj (table_inv h) (allTexts_registered h (hl a ha)) (allTexts_registered h (hl b hb)) e
+
+/-- The dummy list is the actual list, name by name. -/
+theorem dummies_eq {res : List Name} {inv : Invoke} {out : Output} (h : generate res inv = .ok out) :
+    dummies (tableOf res inv) inv = (actuals inv).map (nameOf (tableOf res inv)) := by
+  have hd : ∀ t ∈ textsOf .data inv, t ∈ allTexts inv := fun t ht => by
+    simp only [allTexts, List.mem_append, mem_uniq]; exact Or.inl (Or.inl (Or.inl ht))
+  have hq : ∀ t ∈ textsOf .qr inv, t ∈ allTexts inv := fun t ht => by
+    simp only [allTexts, List.mem_append, mem_uniq]; exact Or.inr ht
+  unfold dummies
+  rw [uniq_map _ _ (nameOf_injOn h _ hd), uniq_map _ _ (nameOf_injOn h _ hq), ← List.map_append,
+    ← List.map_append, ← List.map_append, actuals_eq]
+  exact uniq_map _ _ (nameOf_injOn h _ (fun _ ht => ht))
 
 theorem hasDup_iff {l : List Text} : hasDup l = true ↔ ¬ l.Nodup := by
   induction l with
@@ -120,114 +236,117 @@ theorem hasDup_iff {l : List Text} : hasDup l = true ↔ ¬ l.Nodup := by
     simp only [hasDup, Bool.or_eq_true, List.contains_iff_mem, ih, List.nodup_cons]
     by_cases hx : x ∈ xs <;> simp [hx]
 
+theorem disjointB_iff {a b : List Text} : disjointB a b = true ↔ ∀ x ∈ a, x ∉ b := by
+  simp [disjointB]
+
 /-! ## The property -/
 
 /-- Same length, same order: the actual argument at every position of the rewritten algorithm call is
 the source expression of the dummy argument declared at that position of the PSy routine. -/
 theorem C24_same_list {res : List Name} {inv : Invoke} {out : Output}
-    (h : generate res inv = some out) :
-    out.actuals = out.dummies.map (sourceOf (build res inv)) := by
-  obtain ⟨ha, hd, _⟩ := generate_some h
-  rw [ha, hd, dummies_eq, List.map_map]
-  have : ∀ t ∈ actuals inv, (sourceOf (build res inv) ∘ nameOf (build res inv)) t = t :=
-    fun t ht => sourceOf_nameOf (build_inv res inv) (actuals_registered ht)
+    (h : generate res inv = .ok out) :
+    out.actuals = out.dummies.map (sourceOf (tableOf res inv)) := by
+  obtain ⟨_, _, ha, hd, _⟩ := generate_ok h
+  rw [ha, hd, dummies_eq h, List.map_map]
+  have : ∀ t ∈ actuals inv, (sourceOf (tableOf res inv) ∘ nameOf (tableOf res inv)) t = t := by
+    intro t ht
+    obtain ⟨k, hk, s, hs, r, hv⟩ := mem_actuals.mp ht
+    exact sourceOf_nameOf (table_inv h) (table_registered h hk hs hv)
   conv => lhs; rw [← List.map_id (actuals inv)]
   exact List.map_congr_left (fun t ht => (this t ht).symm)
 
 theorem C24_same_length {res : List Name} {inv : Invoke} {out : Output}
-    (h : generate res inv = some out) : out.actuals.length = out.dummies.length := by
+    (h : generate res inv = .ok out) : out.actuals.length = out.dummies.length := by
   rw [C24_same_list h, List.length_map]
 
-/-- Position by position (also when a name is declared twice): whatever dummy is declared at position
-`i`, the call passes that dummy's source expression at position `i`. -/
+/-- Position by position: whatever dummy is declared at position `i`, the call passes that dummy's source
+expression at position `i`. -/
 theorem C24_binding_coherent {res : List Name} {inv : Invoke} {out : Output}
-    (h : generate res inv = some out) (i : Nat) (n : Name) (hn : out.dummies[i]? = some n) :
-    out.actuals[i]? = some (sourceOf (build res inv) n) := by
+    (h : generate res inv = .ok out) (i : Nat) (n : Name) (hn : out.dummies[i]? = some n) :
+    out.actuals[i]? = some (sourceOf (tableOf res inv) n) := by
   rw [C24_same_list h, List.getElem?_map, hn]; rfl
 
-/-- The algorithm call passes exactly the non-literal expressions written in the invoke. -/
+/-- The algorithm call passes exactly the non-literal expressions written in the invoke … -/
 theorem C24_actuals_exact {res : List Name} {inv : Invoke} {out : Output}
-    (h : generate res inv = some out) (t : Text) :
+    (h : generate res inv = .ok out) (t : Text) :
     t ∈ out.actuals ↔ ∃ k ∈ inv, ∃ s ∈ k, ∃ r, s.act = .var t r := by
-  rw [(generate_some h).1]; exact mem_actuals
+  rw [(generate_ok h).2.2.1]; exact mem_actuals
+
+/-- … each of them once … -/
+theorem C24_actuals_nodup {res : List Name} {inv : Invoke} {out : Output}
+    (h : generate res inv = .ok out) : out.actuals.Nodup := by
+  rw [(generate_ok h).2.2.1, actuals_eq]; exact nodup_uniq _
+
+/-- … and the PSy routine has a legal dummy-argument list: the names are pairwise distinct, whatever is
+repeated, in whatever roles (full theorem on the fixed code; the pinned code declared an expression used as
+kernel scalar and stencil extent twice). -/
+theorem C24_dummies_nodup {res : List Name} {inv : Invoke} {out : Output}
+    (h : generate res inv = .ok out) : out.dummies.Nodup := by
+  rw [(generate_ok h).2.2.2.1, dummies_eq h]
+  refine nodup_map_of_injOn _ _ (fun a ha b hb e => ?_) (by rw [actuals_eq]; exact nodup_uniq _)
+  obtain ⟨k, hk, s, hs, r, hv⟩ := mem_actuals.mp ha
+  obtain ⟨k', hk', s', hs', r', hv'⟩ := mem_actuals.mp hb
+  exact nameOf_inj (table_inv h) (table_registered h hk hs hv) (table_registered h hk' hs' hv') e
 
 /-- Data flow: for kernel call number `ki` and its argument position `j` holding a non-literal expression
-`t`, the PSy layer hands the kernel the symbol `n`, `n` is a dummy argument (at some position `i`), and the
+`t`, the PSy layer hands the kernel the symbol `n`, `n` is THE dummy argument at a position `i`, and the
 rewritten algorithm call passes `t` at that very position. -/
 theorem C24_dataflow {res : List Name} {inv : Invoke} {out : Output}
-    (h : generate res inv = some out) (ki j : Nat) (k : Kernel) (s : Slot) (t : Text) (r : Root)
+    (h : generate res inv = .ok out) (ki j : Nat) (k : Kernel) (s : Slot) (t : Text) (r : Root)
     (hk : inv[ki]? = some k) (hs : k[j]? = some s) (ha : s.act = .var t r) :
     ∃ (n : Name) (i : Nat), (out.kcalls[ki]?.bind (·[j]?)) = some (.sym n) ∧
-      out.dummies[i]? = some n ∧ out.actuals[i]? = some t := by
-  obtain ⟨hact, hd, hkc⟩ := generate_some h
+      out.dummies[i]? = some n ∧ out.actuals[i]? = some t ∧
+      ∀ i', out.dummies[i']? = some n → i' = i := by
+  obtain ⟨_, _, hact, hd, hkc⟩ := generate_ok h
   have hkm : k ∈ inv := List.mem_of_getElem? hk
   have hsm : s ∈ k := List.mem_of_getElem? hs
   have hmem : t ∈ actuals inv := mem_actuals.mpr ⟨k, hkm, s, hsm, r, ha⟩
   obtain ⟨i, hi, hti⟩ := List.getElem_of_mem hmem
-  refine ⟨nameOf (build res inv) t, i, ?_, ?_, ?_⟩
+  have hdi : out.dummies[i]? = some (nameOf (tableOf res inv) t) := by
+    rw [hd, dummies_eq h, List.getElem?_map, List.getElem?_eq_getElem hi, hti]; rfl
+  refine ⟨nameOf (tableOf res inv) t, i, ?_, hdi, ?_, ?_⟩
   · rw [hkc, List.getElem?_map, hk]
     simp only [Option.map_some, Option.bind_some, List.getElem?_map, hs]
     simp [kernArg, ha]
-  · rw [hd, dummies_eq, List.getElem?_map, List.getElem?_eq_getElem hi, hti]; rfl
   · rw [hact, List.getElem?_eq_getElem hi, hti]
+  · intro i' hi'
+    obtain ⟨hlt, e⟩ := List.getElem?_eq_some_iff.mp hdi
+    obtain ⟨hlt', e'⟩ := List.getElem?_eq_some_iff.mp hi'
+    exact (List.getElem_inj (C24_dummies_nodup h)).mp (e'.trans e.symm)
 
 /-- Literals are handed to the kernel unchanged (and, by `C24_actuals_exact`, never appear in the lists). -/
 theorem C24_literal_passthrough {res : List Name} {inv : Invoke} {out : Output}
-    (h : generate res inv = some out) (ki j : Nat) (k : Kernel) (s : Slot) (v : Nat)
+    (h : generate res inv = .ok out) (ki j : Nat) (k : Kernel) (s : Slot) (v : Nat)
     (hk : inv[ki]? = some k) (hs : k[j]? = some s) (ha : s.act = .lit v) :
     (out.kcalls[ki]?.bind (·[j]?)) = some (.lit v) := by
-  obtain ⟨_, _, hkc⟩ := generate_some h
+  obtain ⟨_, _, _, _, hkc⟩ := generate_ok h
   rw [hkc, List.getElem?_map, hk]
   simp only [Option.map_some, Option.bind_some, List.getElem?_map, hs]
   simp [kernArg, ha]
 
-/-- Exactly two kinds of invoke are refused: a non-literal expression passed twice as a data argument of
-one kernel call, and a literal stencil direction. -/
-theorem C24_refused_iff (res : List Name) (inv : Invoke) :
-    generate res inv = none ↔
-      (∃ k ∈ inv, ¬ (dataTexts k).Nodup) ∨
-      (∃ k ∈ inv, ∃ s ∈ k, s.role = .direction ∧ ∃ v, s.act = .lit v) := by
-  have hbad : inv.flatten.any badSlot = true ↔
-      ∃ k ∈ inv, ∃ s ∈ k, s.role = .direction ∧ ∃ v, s.act = .lit v := by
-    simp only [List.any_eq_true, List.mem_flatten]
-    constructor
-    · rintro ⟨s, ⟨k, hk, hs⟩, hb⟩
-      refine ⟨k, hk, s, hs, ?_⟩
-      unfold badSlot at hb
-      split at hb
-      · rename_i v hro hac; exact ⟨hro, v, hac⟩
-      · cases hb
-    · rintro ⟨k, hk, s, hs, hr, v, ha⟩
+/-- An accepted invoke has no argument repeated inside one kernel call and no literal stencil direction. -/
+theorem C24_accepted_wellformed {res : List Name} {inv : Invoke} {out : Output}
+    (h : generate res inv = .ok out) :
+    (∀ k ∈ inv, (dataTexts k).Nodup) ∧
+      ¬ ∃ k ∈ inv, ∃ s ∈ k, s.role = .direction ∧ ∃ v, s.act = .lit v := by
+  obtain ⟨hb, hbad, _⟩ := generate_ok h
+  refine ⟨fun k hk => ?_, ?_⟩
+  · have := (buildK_ok inv _ _ hb (initTab_inv res)).2.2.2 k hk
+    by_cases hn : (dataTexts k).Nodup
+    · exact hn
+    · rw [hasDup_iff.mpr hn] at this; cases this
+  · rintro ⟨k, hk, s, hs, hr, v, ha⟩
+    have : inv.flatten.any badSlot = true := by
+      simp only [List.any_eq_true, List.mem_flatten]
       exact ⟨s, ⟨k, hk, hs⟩, by simp [badSlot, hr, ha]⟩
-  have hdup : inv.any (fun k => hasDup (dataTexts k)) = true ↔ ∃ k ∈ inv, ¬ (dataTexts k).Nodup := by
-    simp only [List.any_eq_true, hasDup_iff]
-  unfold generate refused
-  constructor
-  · intro h
-    split at h
-    · rename_i hr
-      rcases Bool.or_eq_true_iff.mp hr with h1 | h1
-      · exact Or.inl (hdup.mp h1)
-      · exact Or.inr (hbad.mp h1)
-    · cases h
-  · intro h
-    have : (inv.any (fun k => hasDup (dataTexts k)) || inv.flatten.any badSlot) = true := by
-      rcases h with h | h
-      · simp [hdup.mpr h]
-      · simp [hbad.mpr h]
-    rw [if_pos this]
+    rw [this] at hbad; cases hbad
 
 /-- In an accepted invoke two different data positions of one kernel call never receive the same symbol. -/
 theorem C24_no_alias_in_kernel {res : List Name} {inv : Invoke} {out : Output}
-    (h : generate res inv = some out) (k : Kernel) (hk : k ∈ inv) :
-    ((dataTexts k).map (nameOf (build res inv))).Nodup := by
-  have hacc : generate res inv ≠ none := by rw [h]; simp
-  have hnd : (dataTexts k).Nodup := by
-    by_cases hc : (dataTexts k).Nodup
-    · exact hc
-    · exact absurd ((C24_refused_iff res inv).mpr (Or.inl ⟨k, hk, hc⟩)) hacc
-  refine nodup_map_of_injOn _ _ (fun a ha b hb e => ?_) hnd
-  have reg : ∀ t ∈ dataTexts k, Registered (build res inv) t := by
+    (h : generate res inv = .ok out) (k : Kernel) (hk : k ∈ inv) :
+    ((dataTexts k).map (nameOf (tableOf res inv))).Nodup := by
+  refine nodup_map_of_injOn _ _ (fun a ha b hb e => ?_) ((C24_accepted_wellformed h).1 k hk)
+  have reg : ∀ t ∈ dataTexts k, Registered (tableOf res inv) t := by
     intro t ht
     obtain ⟨s, hs, hst⟩ := List.mem_filterMap.mp ht
     unfold textIf at hst
@@ -237,108 +356,581 @@ theorem C24_no_alias_in_kernel {res : List Name} {inv : Invoke} {out : Output}
       · rename_i t' r' ha'
         simp only [Option.map_some, Option.some.injEq] at hst
         subst hst
-        exact build_registered hk hs ha'
+        exact table_registered h hk hs ha'
       · simp at hst
     · cases hst
-  exact nameOf_inj (build_inv res inv) (reg a ha) (reg b hb) e
+  exact nameOf_inj (table_inv h) (reg a ha) (reg b hb) e
 
-/-- The dummy names are pairwise distinct exactly when no expression is passed twice. -/
-theorem C24_dummies_nodup_iff {res : List Name} {inv : Invoke} {out : Output}
-    (h : generate res inv = some out) : out.dummies.Nodup ↔ out.actuals.Nodup := by
-  obtain ⟨hact, hd, _⟩ := generate_some h
-  rw [hact, hd, dummies_eq]
-  constructor
-  · intro hn
-    exact (List.pairwise_map.mp hn).imp (fun hab e => hab (congrArg _ e))
-  · exact nodup_map_of_injOn _ _ (fun a ha b hb e =>
-      nameOf_inj (build_inv res inv) (actuals_registered ha) (actuals_registered hb) e)
+/-- The full statement for one invoke. -/
+def C24_statement : Prop :=
+  ∀ (res : List Name) (inv : Invoke) (out : Output), generate res inv = .ok out →
+    out.actuals = out.dummies.map (sourceOf (tableOf res inv)) ∧ out.dummies.Nodup
 
-/-- Partial theorem: when no expression is used in two different roles, the dummy names are pairwise
-distinct (so the PSy routine has a legal dummy-argument list and every dummy has ONE position). -/
-theorem C24_dummies_nodup_partial {res : List Name} {inv : Invoke} {out : Output}
-    (h : generate res inv = some out) (hg : groupsDisjoint inv = true) : out.dummies.Nodup := by
-  rw [C24_dummies_nodup_iff h, (generate_some h).1]
+theorem C24_holds : C24_statement := fun _ _ _ h => ⟨C24_same_list h, C24_dummies_nodup h⟩
+
+/-! ## aborts: only when an expression is used in two roles -/
+
+def KindsOK (inv : Invoke) (st : SymTab) : Prop :=
+  ∀ t k, lookupKind st.kinds t = some k → ∃ ro, k = kindFor ro ∧ t ∈ textsOf ro inv
+
+theorem lookupKind_append (l : List (Text × SymKind)) (t t' : Text) (k : SymKind) :
+    lookupKind (l ++ [(t', k)]) t =
+      match lookupKind l t with
+      | some m => some m
+      | none => if t' = t then some k else none := by
+  induction l with
+  | nil => simp [lookupKind]
+  | cons p rest ih =>
+    obtain ⟨a, b⟩ := p
+    simp only [List.cons_append, lookupKind]
+    split
+    · rfl
+    · exact ih
+
+theorem compat_self (ro : Role) : compat (some (kindFor ro)) ro = true := by cases ro <;> rfl
+
+theorem regR_noCrash {inv : Invoke} {st : SymTab} {q : (Text × Root) × Role}
+    (hdis : ∀ t ro ro', t ∈ textsOf ro inv → t ∈ textsOf ro' inv → ro = ro')
+    (hk : KindsOK inv st) (hq : q.1.1 ∈ textsOf q.2 inv) :
+    ∃ st', regR st q = some st' ∧ KindsOK inv st' := by
+  have hc : compat (lookupKind st.kinds q.1.1) q.2 = true := by
+    cases hl : lookupKind st.kinds q.1.1 with
+    | none => rfl
+    | some k =>
+      obtain ⟨ro, rfl, hro⟩ := hk _ _ hl
+      rw [hdis _ _ _ hro hq]; exact compat_self _
+  refine ⟨reg st q.1 (kindFor q.2), by simp [regR, hc], ?_⟩
+  unfold reg
+  split
+  · exact hk
+  · intro t k hl
+    simp only [lookupKind_append] at hl
+    split at hl
+    · rename_i m hm; cases hl; exact hk _ _ hm
+    · split at hl
+      · rename_i e; cases hl; exact ⟨q.2, rfl, e ▸ hq⟩
+      · cases hl
+
+theorem regAll_noCrash {inv : Invoke}
+    (hdis : ∀ t ro ro', t ∈ textsOf ro inv → t ∈ textsOf ro' inv → ro = ro') :
+    ∀ (l : List ((Text × Root) × Role)) (st : SymTab), KindsOK inv st → (∀ q ∈ l, q.1.1 ∈ textsOf q.2 inv) →
+      ∃ st', regAll st l = some st' ∧ KindsOK inv st'
+  | [], st, hk, _ => ⟨st, rfl, hk⟩
+  | q :: rest, st, hk, hq => by
+    obtain ⟨st1, h1, hk1⟩ := regR_noCrash hdis hk (hq q (List.mem_cons_self ..))
+    obtain ⟨st2, h2, hk2⟩ := regAll_noCrash hdis rest st1 hk1 (fun q' hq' => hq q' (List.mem_cons_of_mem _ hq'))
+    exact ⟨st2, by simp [regAll, h1, h2], hk2⟩
+
+theorem kernelStep_noCrash {inv : Invoke} {k : Kernel} (hkin : k ∈ inv)
+    (hdis : ∀ t ro ro', t ∈ textsOf ro inv → t ∈ textsOf ro' inv → ro = ro')
+    {st : SymTab} (hk : KindsOK inv st) :
+    kernelStep st k = .refused ∨ ∃ st', kernelStep st k = .ok st' ∧ KindsOK inv st' := by
+  have m1 : ∀ q ∈ (k.filter (isRole .data) ++ k.filter isStencil).filterMap regOf, q.1.1 ∈ textsOf q.2 inv := by
+    rintro ⟨⟨t, r⟩, ro⟩ hq
+    obtain ⟨s, hs, ha, hr, _⟩ := mem_regs_pre.mp hq
+    exact mem_textsOf.mpr ⟨k, hkin, s, hs, hr, r, ha⟩
+  have m2 : ∀ q ∈ (k.filter (isRole .qr)).filterMap regOf, q.1.1 ∈ textsOf q.2 inv := by
+    rintro ⟨⟨t, r⟩, ro⟩ hq
+    obtain ⟨s, hs, ha, hr, _⟩ := mem_regs_qr.mp hq
+    exact mem_textsOf.mpr ⟨k, hkin, s, hs, hr, r, ha⟩
+  obtain ⟨st1, h1, hk1⟩ := regAll_noCrash hdis _ st hk m1
+  obtain ⟨st2, h2, hk2⟩ := regAll_noCrash hdis _ st1 hk1 m2
+  unfold kernelStep
+  rw [h1]
+  by_cases hd : hasDup (dataTexts k) = true
+  · left; simp [hd]
+  · right; exact ⟨st2, by simp [hd, h2], hk2⟩
+
+theorem buildK_noCrash {inv : Invoke}
+    (hdis : ∀ t ro ro', t ∈ textsOf ro inv → t ∈ textsOf ro' inv → ro = ro') :
+    ∀ (ks : Invoke), (∀ k ∈ ks, k ∈ inv) → ∀ (st : SymTab), KindsOK inv st → buildK st ks ≠ .crashed
+  | [], _, _, _ => by simp [buildK]
+  | k :: ks, hsub, st, hk => by
+    simp only [buildK]
+    rcases kernelStep_noCrash (hsub k (List.mem_cons_self ..)) hdis hk with h | ⟨st', h, hk'⟩
+    · rw [h]; simp
+    · rw [h]
+      exact buildK_noCrash hdis ks (fun k' hk'' => hsub k' (List.mem_cons_of_mem _ hk'')) st' hk'
+
+theorem disjoint_roles {inv : Invoke} (hg : groupsDisjoint inv = true) :
+    ∀ t ro ro', t ∈ textsOf ro inv → t ∈ textsOf ro' inv → ro = ro' := by
   simp only [groupsDisjoint, Bool.and_eq_true, disjointB_iff] at hg
   obtain ⟨⟨⟨⟨⟨hde, hdx⟩, hdq⟩, hex⟩, heq⟩, hxq⟩ := hg
-  unfold actuals
-  refine nodup_append_uniq (nodup_append_uniq (nodup_append_uniq (nodup_uniq _) (nodup_uniq _) ?_)
-    (nodup_uniq _) ?_) (nodup_uniq _) ?_
-  · intro x hx; rw [mem_uniq] at hx ⊢; exact hde x hx
-  · intro x hx
-    rw [mem_uniq]
-    rcases List.mem_append.mp hx with hx | hx <;> rw [mem_uniq] at hx
-    · exact hdx x hx
-    · exact hex x hx
-  · intro x hx
-    rw [mem_uniq]
-    rcases List.mem_append.mp hx with hx | hx
-    · rcases List.mem_append.mp hx with hx | hx <;> rw [mem_uniq] at hx
-      · exact hdq x hx
-      · exact heq x hx
-    · rw [mem_uniq] at hx; exact hxq x hx
+  intro t ro ro' h h'
+  cases ro <;> cases ro' <;> first
+    | rfl
+    | exact absurd h' (hde t h) | exact absurd h (hde t h')
+    | exact absurd h' (hdx t h) | exact absurd h (hdx t h')
+    | exact absurd h' (hdq t h) | exact absurd h (hdq t h')
+    | exact absurd h' (hex t h) | exact absurd h (hex t h')
+    | exact absurd h' (heq t h) | exact absurd h (heq t h')
+    | exact absurd h' (hxq t h) | exact absurd h (hxq t h')
 
-/-- Under the same side condition the position of a kernel argument's dummy is unique. -/
-theorem C24_dataflow_unique_partial {res : List Name} {inv : Invoke} {out : Output}
-    (h : generate res inv = some out) (hg : groupsDisjoint inv = true) (n : Name) (i i' : Nat)
-    (hi : out.dummies[i]? = some n) (hi' : out.dummies[i']? = some n) : i = i' := by
-  have hn := C24_dummies_nodup_partial h hg
-  obtain ⟨hlt, e⟩ := List.getElem?_eq_some_iff.mp hi
-  obtain ⟨hlt', e'⟩ := List.getElem?_eq_some_iff.mp hi'
-  exact (List.getElem_inj hn).mp (e.trans e'.symm)
+/-- Generation never aborts inside the symbol table unless some expression is used in two different roles. -/
+theorem C24_crash_only_if_shared (res : List Name) (inv : Invoke) (hg : groupsDisjoint inv = true) :
+    generate res inv ≠ .crashed := by
+  have := buildK_noCrash (disjoint_roles hg) inv (fun _ h => h) (initTab res) (by intro t k h; simp [initTab, lookupKind] at h)
+  unfold generate
+  split
+  · rename_i h; exact absurd h this
+  · simp
+  · split <;> simp
 
-/-- The full statement, including a legal (duplicate-free) dummy-argument list. -/
-def C24_statement : Prop :=
-  ∀ (res : List Name) (inv : Invoke) (out : Output), generate res inv = some out →
-    out.actuals = out.dummies.map (sourceOf (build res inv)) ∧ out.dummies.Nodup
+theorem kernelStep_accepts {inv : Invoke} {k : Kernel} (hkin : k ∈ inv)
+    (hdis : ∀ t ro ro', t ∈ textsOf ro inv → t ∈ textsOf ro' inv → ro = ro')
+    {st : SymTab} (hk : KindsOK inv st) (hnd : hasDup (dataTexts k) = false) :
+    ∃ st', kernelStep st k = .ok st' ∧ KindsOK inv st' := by
+  rcases kernelStep_noCrash hkin hdis hk with h | h
+  · unfold kernelStep at h
+    split at h
+    · cases h
+    · rw [hnd] at h
+      simp only [Bool.false_eq_true, if_false] at h
+      split at h <;> cases h
+  · exact h
 
-/-- Witness: `invoke(kern_a(f1, depth), kern_b(f1, f2, depth))` where `depth` is an integer scalar of
-`kern_a` and the stencil extent of `f2` in `kern_b` (texts: f1=1, depth=2, f2=3). -/
-def dupWitness : Invoke :=
-  [[⟨.data, .var 1 1⟩, ⟨.data, .var 2 2⟩],
-   [⟨.data, .var 1 1⟩, ⟨.data, .var 3 3⟩, ⟨.extent, .var 2 2⟩]]
+theorem buildK_accepts {inv : Invoke}
+    (hdis : ∀ t ro ro', t ∈ textsOf ro inv → t ∈ textsOf ro' inv → ro = ro') :
+    ∀ (ks : Invoke), (∀ k ∈ ks, k ∈ inv) → (∀ k ∈ ks, hasDup (dataTexts k) = false) →
+      ∀ (st : SymTab), KindsOK inv st → ∃ st', buildK st ks = .ok st'
+  | [], _, _, st, _ => ⟨st, rfl⟩
+  | k :: ks, hsub, hnd, st, hk => by
+    obtain ⟨st1, h1, hk1⟩ := kernelStep_accepts (hsub k (List.mem_cons_self ..)) hdis hk (hnd k (List.mem_cons_self ..))
+    obtain ⟨st2, h2⟩ := buildK_accepts hdis ks (fun k' h => hsub k' (List.mem_cons_of_mem _ h))
+      (fun k' h => hnd k' (List.mem_cons_of_mem _ h)) st1 hk1
+    exact ⟨st2, by simp [buildK, h1, h2]⟩
 
-theorem C24_dup_dummy_counterexample : ¬ C24_statement := by
-  intro h
-  have := (h [] dupWitness _ rfl).2
-  revert this
-  decide
+/-- When no expression is used in two roles, an invoke is accepted EXACTLY when no kernel call repeats a data
+argument and no stencil direction is a literal (otherwise it is refused with a GenerationError; it never aborts). -/
+theorem C24_accepted_iff_of_disjoint (res : List Name) (inv : Invoke) (hg : groupsDisjoint inv = true) :
+    (∃ out, generate res inv = .ok out) ↔
+      (∀ k ∈ inv, (dataTexts k).Nodup) ∧ ¬ ∃ k ∈ inv, ∃ s ∈ k, s.role = .direction ∧ ∃ v, s.act = .lit v := by
+  constructor
+  · rintro ⟨out, h⟩; exact C24_accepted_wellformed h
+  · rintro ⟨hnd, hlit⟩
+    have hnd' : ∀ k ∈ inv, hasDup (dataTexts k) = false := by
+      intro k hk
+      cases hd : hasDup (dataTexts k) with
+      | false => rfl
+      | true => exact absurd (hnd k hk) (hasDup_iff.mp hd)
+    obtain ⟨st, hst⟩ := buildK_accepts (disjoint_roles hg) inv (fun _ h => h) hnd' (initTab res)
+      (by intro t k h; simp [initTab, lookupKind] at h)
+    have hbad : inv.flatten.any badSlot = false := by
+      cases hb : inv.flatten.any badSlot with
+      | false => rfl
+      | true =>
+        exfalso; apply hlit
+        simp only [List.any_eq_true, List.mem_flatten] at hb
+        obtain ⟨s, ⟨k, hk, hs⟩, hbs⟩ := hb
+        refine ⟨k, hk, s, hs, ?_⟩
+        unfold badSlot at hbs
+        split at hbs
+        · rename_i v hro hac; exact ⟨hro, v, hac⟩
+        · cases hbs
+    refine ⟨{ actuals := actuals inv, dummies := dummies st inv,
+              kcalls := inv.map fun k => k.map (kernArg st) }, ?_⟩
+    unfold generate
+    rw [hst]
+    simp only [hbad, Bool.false_eq_true, if_false]
 
 /-! ## sanity evaluations and non-vacuity -/
 
 /-- The probe of DESIGN.md: `a/A`, `f1/F1`, `fv(1)`, `fv( 2 )`, `fv(3)`: texts a=1 f1=2 f2=3 m1=4 m2=5
 fv(1)=6 fv(2)=7 fv(3)=8, root of the three elements = 9 (`fv`); a literal 100 in a built-in. -/
 def probe : Invoke :=
-  [[⟨.data, .var 1 1⟩, ⟨.data, .var 2 2⟩, ⟨.data, .var 3 3⟩, ⟨.data, .var 4 4⟩, ⟨.data, .var 5 5⟩],
-   [⟨.data, .var 1 1⟩, ⟨.data, .var 6 9⟩, ⟨.data, .var 7 9⟩, ⟨.data, .var 4 4⟩, ⟨.data, .var 5 5⟩],
-   [⟨.data, .var 2 2⟩, ⟨.data, .lit 100⟩],
-   [⟨.data, .var 8 9⟩, ⟨.data, .var 6 9⟩]]
+  [[⟨.data, .var 1 1, 0⟩, ⟨.data, .var 2 2, 0⟩, ⟨.data, .var 3 3, 0⟩, ⟨.data, .var 4 4, 0⟩, ⟨.data, .var 5 5, 0⟩],
+   [⟨.data, .var 1 1, 0⟩, ⟨.data, .var 6 9, 0⟩, ⟨.data, .var 7 9, 0⟩, ⟨.data, .var 4 4, 0⟩, ⟨.data, .var 5 5, 0⟩],
+   [⟨.data, .var 2 2, 0⟩, ⟨.data, .lit 100, 0⟩],
+   [⟨.data, .var 8 9, 0⟩, ⟨.data, .var 6 9, 0⟩]]
 
-example : (generate [] probe).map (·.actuals) = some [1, 2, 3, 4, 5, 6, 7, 8] := by decide
-example : (generate [] probe).map (·.dummies) =
+def outOf : Result → Option Output
+  | .ok o => some o
+  | _ => none
+
+example : (outOf (generate [] probe)).map (·.actuals) = some [1, 2, 3, 4, 5, 6, 7, 8] := by decide
+example : (outOf (generate [] probe)).map (·.dummies) =
     some [(1, 0), (2, 0), (3, 0), (4, 0), (5, 0), (9, 0), (9, 1), (9, 2)] := by decide
-example : (generate [] probe).map (·.kcalls) =
+example : (outOf (generate [] probe)).map (·.kcalls) =
     some [[.sym (1, 0), .sym (2, 0), .sym (3, 0), .sym (4, 0), .sym (5, 0)],
           [.sym (1, 0), .sym (9, 0), .sym (9, 1), .sym (4, 0), .sym (5, 0)],
           [.sym (2, 0), .lit 100],
           [.sym (9, 2), .sym (9, 0)]] := by decide
 /-- a reserved name (`cell`, root 7) pushes the argument of that name to `cell_1`. -/
-example : (generate [(7, 0)] [[⟨.data, .var 7 7⟩]]).map (·.dummies) = some [(7, 1)] := by decide
+example : (outOf (generate [(7, 0)] [[⟨.data, .var 7 7, 0⟩]])).map (·.dummies) = some [(7, 1)] := by decide
 /-- stencil kernel: extents first, then directions (`x_direction` is not passed), then quadrature. -/
-example : (generate [] [[⟨.data, .var 1 1⟩, ⟨.data, .var 2 2⟩, ⟨.extent, .var 10 10⟩, ⟨.direction, .var 11 11⟩,
-      ⟨.qr, .var 20 20⟩],
-    [⟨.data, .var 1 1⟩, ⟨.data, .var 3 3⟩, ⟨.extent, .var 12 10⟩, ⟨.direction, .dirconst 0⟩,
-      ⟨.data, .var 4 4⟩]]).map (·.actuals) = some [1, 2, 3, 4, 10, 12, 11, 20] := by decide
+example : (outOf (generate [] [[⟨.data, .var 1 1, 0⟩, ⟨.data, .var 2 2, 0⟩, ⟨.extent, .var 10 10, 0⟩, ⟨.direction, .var 11 11, 0⟩,
+      ⟨.qr, .var 20 20, 0⟩],
+    [⟨.data, .var 1 1, 0⟩, ⟨.data, .var 3 3, 0⟩, ⟨.extent, .var 12 10, 0⟩, ⟨.direction, .dirconst 0, 0⟩,
+      ⟨.data, .var 4 4, 0⟩]])).map (·.actuals) = some [1, 2, 3, 4, 10, 12, 11, 20] := by decide
+/-- `depth` (2) as kernel scalar, then as stencil extent: passed and declared once (fixed code). -/
+def twoRoles : Invoke :=
+  [[⟨.data, .var 1 1, 0⟩, ⟨.data, .var 2 2, 0⟩],
+   [⟨.data, .var 1 1, 0⟩, ⟨.data, .var 3 3, 0⟩, ⟨.extent, .var 2 2, 0⟩]]
+example : (outOf (generate [] twoRoles)).map (fun o => (o.actuals, o.dummies)) =
+    some ([1, 2, 3], [(1, 0), (2, 0), (3, 0)]) := by decide
+example : groupsDisjoint twoRoles = false := by decide
+/-- the other order (extent first, then kernel scalar) aborts with SymbolError; extent then direction and
+kernel scalar then direction abort with TypeError; direction then extent / kernel scalar are accepted. -/
+example : (match generate [] [[⟨.data, .var 1 1, 0⟩, ⟨.extent, .var 2 2, 0⟩], [⟨.data, .var 2 2, 0⟩]] with
+    | .crashed => true | _ => false) = true := by decide
+example : (match generate [] [[⟨.data, .var 1 1, 0⟩, ⟨.extent, .var 2 2, 0⟩, ⟨.direction, .var 2 2, 0⟩]] with
+    | .crashed => true | _ => false) = true := by decide
+example : (match generate [] [[⟨.data, .var 2 2, 0⟩], [⟨.data, .var 1 1, 0⟩, ⟨.extent, .var 3 3, 0⟩, ⟨.direction, .var 2 2, 0⟩]] with
+    | .crashed => true | _ => false) = true := by decide
+example : (outOf (generate [] [[⟨.data, .var 1 1, 0⟩, ⟨.extent, .var 3 3, 0⟩, ⟨.direction, .var 2 2, 0⟩],
+    [⟨.data, .var 2 2, 0⟩, ⟨.extent, .var 2 2, 0⟩]])).map (·.actuals) = some [1, 2, 3] := by decide
 /-- the hypotheses of the theorems are satisfiable on non-trivial input -/
-example : ∃ out, generate [] probe = some out := ⟨_, rfl⟩
+example : ∃ out, generate [] probe = .ok out := ⟨_, rfl⟩
 example : groupsDisjoint probe = true := by decide
-example : groupsDisjoint dupWitness = false := by decide
-example : ∃ out, generate [] dupWitness = some out ∧ out.dummies = [(1, 0), (2, 0), (3, 0), (2, 0)] :=
-  ⟨_, rfl, by decide⟩
 /-- a repeated data argument inside one kernel call is refused; the same text in two kernels is not -/
-example : generate [] [[⟨.data, .var 1 1⟩, ⟨.data, .var 1 1⟩]] = none := by decide
-example : generate [] [[⟨.data, .var 1 1⟩], [⟨.data, .var 1 1⟩]] ≠ none := by decide
+example : (match generate [] [[⟨.data, .var 1 1, 0⟩, ⟨.data, .var 1 1, 0⟩]] with | .refused => true | _ => false) = true := by
+  decide
+example : (outOf (generate [] [[⟨.data, .var 1 1, 0⟩], [⟨.data, .var 1 1, 0⟩]])).isSome = true := by decide
 /-- a literal direction is refused -/
-example : generate [] [[⟨.data, .var 1 1⟩, ⟨.extent, .lit 5⟩, ⟨.direction, .lit 6⟩]] = none := by decide
-example : generate [] [[⟨.data, .var 1 1⟩, ⟨.extent, .lit 5⟩, ⟨.direction, .dirconst 0⟩]] ≠ none := by decide
+example : (match generate [] [[⟨.data, .var 1 1, 0⟩, ⟨.extent, .lit 5, 0⟩, ⟨.direction, .lit 6, 0⟩]] with
+    | .refused => true | _ => false) = true := by decide
+example : (outOf (generate [] [[⟨.data, .var 1 1, 0⟩, ⟨.extent, .lit 5, 0⟩, ⟨.direction, .dirconst 0, 0⟩]])).isSome = true := by
+  decide
+
+/-! ## The property, file level: which routine a rewritten call refers to -/
+
+theorem genFileWith_ok {chk : List InvokeDecl → Bool} {res : List Name} {ds : List InvokeDecl} {fo : FileOut}
+    (h : genFileWith chk res ds = .ok fo) :
+    chk ds = true ∧ ∃ l, psyInvokes res 0 ds = .ok l ∧
+      fo.calls = l.map (fun p => (p.name, p.out.actuals)) ∧
+      fo.routines = l.map (fun p => (p.name, p.out.dummies)) ∧
+      fo.kcalls = l.map (fun p => p.out.kcalls) := by
+  unfold genFileWith at h
+  split at h
+  · cases h
+  · rename_i hc
+    split at h
+    · cases h
+    · cases h
+    · rename_i l hl
+      cases h
+      refine ⟨by simpa using hc, l, hl, ?_, rfl, rfl⟩
+      have := (psyInvokes_ok res ds 0 l hl).1
+      simp only
+      rw [← this, rewriteCalls_all]
+
+/-- For ANY number of invokes (either label check): the k-th rewritten call of the algorithm layer carries the
+name and the actual arguments of the k-th invoke, and the k-th routine of the PSy module is the one generated
+from the k-th invoke (same name, that invoke's dummy list and kernel calls). -/
+theorem C24_invoke_matching_any {chk : List InvokeDecl → Bool} {res : List Name} {ds : List InvokeDecl}
+    {fo : FileOut} (h : genFileWith chk res ds = .ok fo) :
+    fo.calls.length = ds.length ∧ fo.routines.length = ds.length ∧
+      ∀ (k : Nat) (d : InvokeDecl), ds[k]? = some d → ∃ o, generate res d.body = .ok o ∧
+        fo.calls[k]? = some (routineName k d, o.actuals) ∧
+        fo.routines[k]? = some (routineName k d, o.dummies) ∧
+        fo.kcalls[k]? = some o.kcalls := by
+  obtain ⟨_, l, hl, hc, hr, hk⟩ := genFileWith_ok h
+  obtain ⟨hlen, _, hget⟩ := psyInvokes_ok res ds 0 l hl
+  refine ⟨by rw [hc, List.length_map, hlen], by rw [hr, List.length_map, hlen], ?_⟩
+  intro k d hd
+  obtain ⟨o, ho, hlk⟩ := hget k d hd
+  simp only [Nat.zero_add] at hlk
+  exact ⟨o, ho, by rw [hc, List.getElem?_map, hlk]; rfl, by rw [hr, List.getElem?_map, hlk]; rfl,
+    by rw [hk, List.getElem?_map, hlk]; rfl⟩
+
+theorem routine_names_eq {chk : List InvokeDecl → Bool} {res : List Name} {ds : List InvokeDecl}
+    {fo : FileOut} (h : genFileWith chk res ds = .ok fo) :
+    fo.routines.map Prod.fst = namesFrom 0 ds ∧ fo.calls.map Prod.fst = namesFrom 0 ds := by
+  obtain ⟨_, l, hl, hc, hr, _⟩ := genFileWith_ok h
+  obtain ⟨_, hn, _⟩ := psyInvokes_ok res ds 0 l hl
+  constructor
+  · rw [hr, List.map_map, ← hn]; rfl
+  · rw [hc, List.map_map, ← hn]; rfl
+
+/-- FIXED code (fixes/C24-invoke-label-clash.patch): matching as above, and the routine names are pairwise
+distinct, so every rewritten call refers to exactly one routine of the PSy module: the one of its invoke. -/
+theorem C24_invoke_matching {res : List Name} {ds : List InvokeDecl} {fo : FileOut}
+    (h : genFile res ds = .ok fo) :
+    (∀ (k : Nat) (d : InvokeDecl), ds[k]? = some d → ∃ o, generate res d.body = .ok o ∧
+        fo.calls[k]? = some (routineName k d, o.actuals) ∧
+        fo.routines[k]? = some (routineName k d, o.dummies)) ∧
+      (fo.routines.map Prod.fst).Nodup ∧
+      ∀ (k j : Nat) (n : RName) (as : List Text) (dm : List Name),
+        fo.calls[k]? = some (n, as) → fo.routines[j]? = some (n, dm) → j = k := by
+  have hm := C24_invoke_matching_any h
+  have hnd : (fo.routines.map Prod.fst).Nodup := by
+    rw [(routine_names_eq h).1]
+    exact (names_spec ds [] 0 (by simp) (genFileWith_ok h).1).1
+  refine ⟨fun k d hd => ?_, hnd, ?_⟩
+  · obtain ⟨o, ho, h1, h2, _⟩ := hm.2.2 k d hd
+    exact ⟨o, ho, h1, h2⟩
+  · intro k j n as dm hk hj
+    have hk' : (fo.calls.map Prod.fst)[k]? = some n := by rw [List.getElem?_map, hk]; rfl
+    have hj' : (fo.routines.map Prod.fst)[j]? = some n := by rw [List.getElem?_map, hj]; rfl
+    rw [(routine_names_eq h).2, ← (routine_names_eq h).1] at hk'
+    obtain ⟨hlt, e⟩ := List.getElem?_eq_some_iff.mp hk'
+    obtain ⟨hlt', e'⟩ := List.getElem?_eq_some_iff.mp hj'
+    exact (List.getElem_inj hnd).mp (e'.trans e.symm)
+
+/-- The statement about distinct routine names, for the PINNED label check (raw label texts compared). -/
+def C24_pinned_names_statement : Prop :=
+  ∀ (res : List Name) (ds : List InvokeDecl) (fo : FileOut), genFilePinned res ds = .ok fo →
+    (fo.routines.map Prod.fst).Nodup
+
+/-- `call invoke(name="invoke_1", setval_c(f1, 0.0)); call invoke(setval_c(f2, 0.0))`: both routines are
+called `invoke_1` on the pinned code. -/
+def clashWitness : List InvokeDecl :=
+  [⟨some (.preIdx 1), [none], [[⟨.data, .var 1 1, 0⟩, ⟨.data, .lit 9, 0⟩]]⟩,
+   ⟨none, [none], [[⟨.data, .var 2 2, 0⟩, ⟨.data, .lit 9, 0⟩]]⟩]
+
+theorem C24_routine_names_pinned_counterexample : ¬ C24_pinned_names_statement := by
+  intro h
+  have := h [] clashWitness _ rfl
+  revert this
+  decide
+
+/-- `name="a"` and `name="invoke_a"` in one file: accepted by the pinned check, both called `invoke_a`. -/
+example : ¬ (∀ fo, genFilePinned [] [⟨some (.plain 5), [none], [[⟨.data, .var 1 1, 0⟩]]⟩,
+    ⟨some (.pre 5), [none], [[⟨.data, .var 2 2, 0⟩]]⟩] = .ok fo → (fo.routines.map Prod.fst).Nodup) := by
+  intro h
+  have := h _ rfl
+  revert this
+  decide
+/-- both files are refused by the fixed check -/
+example : (match genFile [] clashWitness with | .refused => true | _ => false) = true := by decide
+
+/-- Partial theorem for the pinned code: when no label starts with "invoke_" the pinned label check behaves
+like the fixed one, so `C24_invoke_matching` applies. -/
+theorem C24_invoke_matching_pinned_partial (res : List Name) (ds : List InvokeDecl)
+    (hp : noInvokePrefix ds = true) : genFilePinned res ds = genFile res ds := by
+  unfold genFilePinned genFile genFileWith
+  rw [labelsOKPinned_eq ds [] hp (by simp)]; rfl
+
+/-- non-vacuity: three invokes — named, single user kernel, unnamed with two built-ins -/
+def threeInvokes : List InvokeDecl :=
+  [⟨some (.plain 7), [none], [[⟨.data, .var 1 1, 0⟩, ⟨.data, .lit 9, 0⟩]]⟩,
+   ⟨none, [some 3], [[⟨.data, .var 1 1, 0⟩, ⟨.data, .var 2 2, 0⟩]]⟩,
+   ⟨none, [none, none], [[⟨.data, .var 2 2, 0⟩, ⟨.data, .lit 9, 0⟩], [⟨.data, .var 1 1, 0⟩, ⟨.data, .var 2 2, 0⟩]]⟩]
+example : noInvokePrefix threeInvokes = true := by decide
+def fileOutOf : FileResult → Option FileOut
+  | .ok fo => some fo
+  | _ => none
+example : (fileOutOf (genFile [] threeInvokes)).map (·.calls) =
+    some [(.lab 7, [1]), (.idxKern 1 3, [1, 2]), (.idx 2, [2, 1])] := by decide
+example : (fileOutOf (genFile [] threeInvokes)).map (·.routines) =
+    some [(.lab 7, [(1, 0)]), (.idxKern 1 3, [(1, 0), (2, 0)]), (.idx 2, [(2, 0), (1, 0)])] := by decide
+
+/-! ## PSy-layer internal names (proxies, dofmaps, ndf/undf) against the dummy arguments -/
+
+theorem kernelStep_roots {st st' : SymTab} {k : Kernel} (h : kernelStep st k = .ok st') :
+    ∀ p ∈ st'.tags, p ∈ st.tags ∨ ∃ s ∈ k, ∃ r, s.act = .var p.1 r ∧ p.2.1 = r := by
+  unfold kernelStep at h
+  split at h
+  · cases h
+  · rename_i st1 h1
+    split at h
+    · cases h
+    · split at h
+      · cases h
+      · rename_i st2 h2
+        cases h
+        intro p hp
+        rcases regAll_tags _ _ _ h2 p hp with h3 | ⟨q, hq, e1, e2⟩
+        · rcases regAll_tags _ _ _ h1 p h3 with h4 | ⟨q, hq, e1, e2⟩
+          · exact Or.inl h4
+          · obtain ⟨⟨t, r⟩, ro⟩ := q
+            obtain ⟨s, hs, ha, _, _⟩ := mem_regs_pre.mp hq
+            exact Or.inr ⟨s, hs, r, by simpa [e1] using ha, e2⟩
+        · obtain ⟨⟨t, r⟩, ro⟩ := q
+          obtain ⟨s, hs, ha, _, _⟩ := mem_regs_qr.mp hq
+          exact Or.inr ⟨s, hs, r, by simpa [e1] using ha, e2⟩
+
+theorem buildK_roots : ∀ (inv : Invoke) (st st' : SymTab), buildK st inv = .ok st' →
+    ∀ p ∈ st'.tags, p ∈ st.tags ∨ ∃ k ∈ inv, ∃ s ∈ k, ∃ r, s.act = .var p.1 r ∧ p.2.1 = r
+  | [], st, st', h, p, hp => by
+    simp only [buildK, Step.ok.injEq] at h; subst h; exact Or.inl hp
+  | k :: ks, st, st', h, p, hp => by
+    simp only [buildK] at h
+    split at h
+    · rename_i st1 h1
+      rcases buildK_roots ks st1 st' h p hp with h2 | ⟨k', hk', s, hs, r, e⟩
+      · rcases kernelStep_roots h1 p h2 with h3 | ⟨s, hs, r, e⟩
+        · exact Or.inl h3
+        · exact Or.inr ⟨k, List.mem_cons_self .., s, hs, r, e⟩
+      · exact Or.inr ⟨k', List.mem_cons_of_mem _ hk', s, hs, r, e⟩
+    · cases h
+    · cases h
+
+/-- Every dummy argument is called after the root of an argument written in the invoke. -/
+theorem dummy_root {res : List Name} {inv : Invoke} {out : Output} (h : generate res inv = .ok out)
+    {n : Name} (hn : n ∈ dummies (tableOf res inv) inv) :
+    ∃ k ∈ inv, ∃ s ∈ k, ∃ t r, s.act = .var t r ∧ n.1 = r := by
+  rw [dummies_eq h] at hn
+  obtain ⟨t, ht, rfl⟩ := List.mem_map.mp hn
+  obtain ⟨k, hk, s, hs, r, hv⟩ := mem_actuals.mp ht
+  have hreg := table_registered h hk hs hv
+  unfold Registered at hreg
+  obtain ⟨n, hl⟩ := Option.isSome_iff_exists.mp hreg
+  have hmem := lookupTag_mem hl
+  rcases buildK_roots inv _ _ (generate_ok h).1 (t, n) hmem with h0 | ⟨k', hk', s', hs', r', e1, e2⟩
+  · simp [initTab] at h0
+  · exact ⟨k', hk', s', hs', t, r', e1, by simp only [nameOf, hl, Option.getD_some]; exact e2⟩
+
+/-- The statement one would like: the routine never declares one of its dummy arguments a second time. -/
+def C24_internal_names_statement : Prop :=
+  ∀ (res : List Name) (inv : Invoke) (I : Internals) (out : Output), generate res inv = .ok out →
+    clashes (tableOf res inv) inv I = []
+
+/-- Known finding C24-psy-internal-name-clash: `invoke(testkern_type(a, f1, f1_proxy, …))` — texts/roots
+f1 = 1, f1_proxy = 2; the string relation says `f1` + "_proxy" is root 2: the proxy of `f1` IS the dummy. -/
+def proxyWitness : Invoke := [[⟨.data, .var 1 1, 0⟩, ⟨.data, .var 2 2, 0⟩]]
+def proxyInternals : Internals := { proxied := [1, 2], proxyRoot := [((1, 0), 2)], spaceRoots := [] }
+
+theorem C24_internal_clash_counterexample : ¬ C24_internal_names_statement := by
+  intro h
+  have := h [] proxyWitness proxyInternals _ rfl
+  revert this
+  decide
+
+/-- a field called `map_w1` (root 3) in a routine that defines `map_w1` -/
+example : clashes (tableOf [] [[⟨.data, .var 1 1, 0⟩, ⟨.data, .var 3 3, 0⟩]]) [[⟨.data, .var 1 1, 0⟩, ⟨.data, .var 3 3, 0⟩]]
+    { proxied := [1, 3], proxyRoot := [], spaceRoots := [3] } = [(3, 0)] := by decide
+
+/-- Partial theorem: when no argument of the invoke is called like one of the concatenated names
+(`<x>_proxy`, `map_…`, `ndf_…`, `undf_…`), no dummy argument is declared twice or overwritten. -/
+theorem C24_no_internal_clash_partial {res : List Name} {inv : Invoke} {I : Internals} {out : Output}
+    (h : generate res inv = .ok out) (hn : noReservedNames inv I = true) :
+    clashes (tableOf res inv) inv I = [] := by
+  unfold clashes
+  rw [List.filter_eq_nil_iff]
+  intro n hin
+  simp only [decide_eq_true_eq]
+  intro hd
+  have hres : n.1 ∈ reservedRoots I := by
+    unfold internalNames at hin
+    rcases List.mem_append.mp hin with h1 | h1
+    · obtain ⟨t, _, ht⟩ := List.mem_filterMap.mp h1
+      cases hl : lookupProxy I.proxyRoot (nameOf (tableOf res inv) t) with
+      | none => rw [hl] at ht; simp at ht
+      | some r =>
+        rw [hl] at ht
+        simp only [Option.map_some, Option.some.injEq] at ht
+        subst ht
+        have : ∀ (l : List (Name × Root)) (m : Name) (r : Root), lookupProxy l m = some r → r ∈ l.map Prod.snd := by
+          intro l
+          induction l with
+          | nil => intro m r hh; simp [lookupProxy] at hh
+          | cons p rest ih =>
+            intro m r hh
+            obtain ⟨a, b⟩ := p
+            simp only [lookupProxy] at hh
+            split at hh
+            · cases hh; simp
+            · simp only [List.map_cons, List.mem_cons]; exact Or.inr (ih m r hh)
+        exact List.mem_append_left _ (this _ _ _ hl)
+    · obtain ⟨r, hr, rfl⟩ := List.mem_map.mp h1
+      exact List.mem_append_right _ hr
+  obtain ⟨k, hk, s, hs, t, r, ha, e⟩ := dummy_root h hd
+  simp only [noReservedNames, List.all_eq_true, List.mem_flatten] at hn
+  have := hn s ⟨k, hk, hs⟩
+  rw [ha] at this
+  simp only [Bool.not_eq_eq_eq_not, Bool.not_true, List.contains_eq_mem, decide_eq_false_iff_not] at this
+  exact this (e ▸ hres)
+
+example : noReservedNames proxyWitness proxyInternals = false := by decide
+example : noReservedNames probe { proxied := [2, 3], proxyRoot := [((2, 0), 50)], spaceRoots := [60, 61] } = true := by
+  decide
+
+/-! ## The PSyIR-based algorithm path (`LFRIC_TESTING`): second `actuals` function -/
+
+/-- The statement one would like: both algorithm paths pass the same list. -/
+def C24_psyir_path_statement : Prop := ∀ (inv : Invoke), actualsB inv = actuals inv
+
+/-- Known finding C24-psyir-path-component-repeat: `obj%f2` in one kernel call, `obj%F2` in another — one
+text (5), two spelling classes: the PSyIR path passes the expression twice, the PSy routine declares it once. -/
+def spellingWitness : Invoke := [[⟨.data, .var 1 1, 1⟩, ⟨.data, .var 5 5, 2⟩], [⟨.data, .var 3 3, 3⟩, ⟨.data, .var 5 5, 4⟩]]
+
+theorem C24_psyir_path_counterexample : ¬ C24_psyir_path_statement := by
+  intro h
+  have := h spellingWitness
+  revert this
+  decide
+
+/-- the converse defect: `fa(i+1)` and `fa(1+i)` — two texts (5, 6), one class: passed once, declared twice -/
+example : actualsB [[⟨.data, .var 5 9, 7⟩], [⟨.data, .var 6 9, 7⟩]] = [5] ∧
+    actuals [[⟨.data, .var 5 9, 7⟩], [⟨.data, .var 6 9, 7⟩]] = [5, 6] := by decide
+
+/-- Partial theorem: when the spelling classes and the texts describe the same partition of the written
+expressions, the PSyIR path passes exactly the list of the default path (so all theorems above apply). -/
+theorem C24_psyir_path_partial (inv : Invoke) (hc : classesAgree inv = true) : actualsB inv = actuals inv := by
+  have hag : ∀ p ∈ allPairs inv, ∀ q ∈ allPairs inv, p.2 = q.2 ↔ p.1 = q.1 := by
+    simp only [classesAgree, List.all_eq_true, decide_eq_true_eq] at hc
+    exact hc
+  have sub : ∀ ro, ∀ p ∈ pairsOf ro inv, p ∈ allPairs inv := by
+    intro ro p hp
+    simp only [allPairs, List.mem_append]
+    cases ro
+    · exact Or.inl (Or.inl (Or.inl hp))
+    · exact Or.inl (Or.inl (Or.inr hp))
+    · exact Or.inl (Or.inr hp)
+    · exact Or.inr hp
+  -- every stage only ever holds pairs of the invoke
+  have stage0 : ∀ ro, ∀ p ∈ uniqByAcc [] (pairsOf ro inv), p ∈ allPairs inv := by
+    intro ro p hp
+    rcases mem_uniqByAcc_sub _ _ p hp with h | h
+    · simp at h
+    · exact sub ro p h
+  have agree : ∀ (a b : List (Text × Nat)), (∀ p ∈ a, p ∈ allPairs inv) → (∀ p ∈ b, p ∈ allPairs inv) →
+      ∀ p ∈ a ++ b, ∀ q ∈ a ++ b, p.2 = q.2 ↔ p.1 = q.1 := by
+    intro a b ha hb p hp q hq
+    refine hag p ?_ q ?_
+    · rcases List.mem_append.mp hp with h | h
+      · exact ha p h
+      · exact hb p h
+    · rcases List.mem_append.mp hq with h | h
+      · exact ha q h
+      · exact hb q h
+  have step : ∀ (a b : List (Text × Nat)), (∀ p ∈ a, p ∈ allPairs inv) → (∀ p ∈ b, p ∈ allPairs inv) →
+      (uniqByAcc a b).map Prod.fst = uniqAcc (a.map Prod.fst) (b.map Prod.fst) ∧
+      ∀ p ∈ uniqByAcc a b, p ∈ allPairs inv := by
+    intro a b ha hb
+    refine ⟨uniqByAcc_map b a (agree a b ha hb), ?_⟩
+    intro p hp
+    rcases mem_uniqByAcc_sub _ _ p hp with h | h
+    · exact ha p h
+    · exact hb p h
+  have u0 : ∀ ro, (uniqByAcc [] (pairsOf ro inv)).map Prod.fst = uniq (textsOf ro inv) := by
+    intro ro
+    rw [(step [] (pairsOf ro inv) (by simp) (sub ro)).1, pairsOf_map_fst]; rfl
+  obtain ⟨e1, m1⟩ := step _ _ (stage0 .data) (stage0 .extent)
+  obtain ⟨e2, m2⟩ := step _ _ m1 (stage0 .direction)
+  obtain ⟨e3, _⟩ := step _ _ m2 (stage0 .qr)
+  unfold actualsB
+  rw [e3, e2, e1, u0, u0, u0, u0, actuals_eq]
+  have uu : ∀ l : List Text, uniq (uniq l) = uniq l := fun l => uniqAcc_uniq [] l
+  unfold allTexts
+  simp only [uniq_append, uniqAcc_uniq, uu]
+
+example : classesAgree [[⟨.data, .var 1 1, 1⟩, ⟨.data, .var 2 2, 2⟩], [⟨.data, .var 1 1, 1⟩, ⟨.extent, .var 2 2, 2⟩]] = true := by
+  decide
+example : classesAgree spellingWitness = false := by decide
+
+/-- Routine name on the PSyIR path: differs from the default path exactly for a LABELLED invoke that
+consists of one built-in (the label is ignored there; finding C24-psyir-path-named-builtin). -/
+theorem C24_psyir_name_iff (idx : Nat) (d : InvokeDecl) :
+    routineNameB idx d ≠ routineName idx d → d.heads = [none] ∧ d.label.isSome := by
+  intro hne
+  unfold routineNameB at hne
+  split at hne
+  · rename_i hh
+    refine ⟨hh, ?_⟩
+    cases hl : d.label with
+    | some _ => rfl
+    | none => exact absurd (by simp [routineName, hl, hh]) hne
+  · exact absurd rfl hne
+
+/-- Known finding C24-psyir-path-named-builtin: `call invoke(name="mine", setval_c(f1, 0.0))` is rewritten to
+`call invoke_0(f1)` while the PSy module defines `invoke_mine`. -/
+theorem C24_psyir_name_counterexample :
+    ¬ ∀ (idx : Nat) (d : InvokeDecl), routineNameB idx d = routineName idx d := by
+  intro h
+  have := h 0 ⟨some (.plain 7), [none], []⟩
+  revert this
+  decide
 
 end C24
